@@ -131,24 +131,38 @@ type VerifSource struct {
 	Level    int
 	Fid      uint64
 	Versions []uint64
+	Entries  []VerifSourceEntry
+}
+
+// VerifSourceEntry is one stored entry of a source (value bytes as stored,
+// i.e. an encoded value pointer when Meta has BitValuePointer).
+type VerifSourceEntry struct {
+	Version   uint64
+	Meta      byte
+	ExpiresAt uint64
+	Value     []byte
 }
 
 // VerifKeySources lists, in the engine's own lookup order, every source that
 // holds at least one entry for the user key of the given internal key.
 func (lsm *LSM) VerifKeySources(internalKey []byte) []VerifSource {
 	seek := kv.KeyWithTs(kv.ParseKey(internalKey), math.MaxUint64)
+	var lastEntries []VerifSourceEntry
 	collect := func(it utils.Iterator) []uint64 {
+		lastEntries = nil
 		if it == nil {
 			return nil
 		}
 		defer func() { _ = it.Close() }()
 		var vs []uint64
 		for it.Seek(seek); it.Valid(); it.Next() {
-			k := it.Item().Entry().Key
+			e := it.Item().Entry()
+			k := e.Key
 			if !kv.SameKey(k, seek) {
 				break
 			}
 			vs = append(vs, kv.ParseTs(k))
+			lastEntries = append(lastEntries, VerifSourceEntry{Version: kv.ParseTs(k), Meta: e.Meta, ExpiresAt: e.ExpiresAt, Value: kv.SafeCopy(nil, e.Value)})
 		}
 		return vs
 	}
@@ -163,7 +177,7 @@ func (lsm *LSM) VerifKeySources(internalKey []byte) []VerifSource {
 			if i == 0 {
 				kind = "mem"
 			}
-			out = append(out, VerifSource{Kind: kind, Fid: uint64(mt.segmentID), Versions: vs})
+			out = append(out, VerifSource{Kind: kind, Fid: uint64(mt.segmentID), Versions: vs, Entries: lastEntries})
 		}
 	}
 	if release != nil {
@@ -185,7 +199,7 @@ func (lsm *LSM) VerifKeySources(internalKey []byte) []VerifSource {
 		lh.RUnlock()
 		for _, t := range ingest {
 			if vs := collect(t.NewIterator(&utils.Options{IsAsc: true})); len(vs) > 0 {
-				out = append(out, VerifSource{Kind: "ingest", Level: lh.levelNum, Fid: t.fid, Versions: vs})
+				out = append(out, VerifSource{Kind: "ingest", Level: lh.levelNum, Fid: t.fid, Versions: vs, Entries: lastEntries})
 			}
 			_ = t.DecrRef()
 		}
@@ -195,7 +209,7 @@ func (lsm *LSM) VerifKeySources(internalKey []byte) []VerifSource {
 				if lh.levelNum == 0 {
 					kind = "l0"
 				}
-				out = append(out, VerifSource{Kind: kind, Level: lh.levelNum, Fid: t.fid, Versions: vs})
+				out = append(out, VerifSource{Kind: kind, Level: lh.levelNum, Fid: t.fid, Versions: vs, Entries: lastEntries})
 			}
 			_ = t.DecrRef()
 		}
